@@ -731,7 +731,7 @@ scnLoop:
 				violDistinct[sig] = true
 				// confirm determinism
 				if !strings.HasPrefix(rest[0], "CRASH") {
-					v.Repro = confirm(getWorker, si, pb, epoch+1000, v)
+					v.Repro = confirm(getWorker, si, pb, epoch+1000, &v)
 				}
 				rep.Violations = append(rep.Violations, v)
 				newViol = true
@@ -776,19 +776,20 @@ scnLoop:
 	finish(rep)
 }
 
-func confirm(getWorker func(int) (*worker, error), si, pb, epoch int, v Violation) int {
+func confirm(getWorker func(int) (*worker, error), si, pb, epoch int, v *Violation) int {
 	n := 0
 	w, err := getWorker(0)
 	if err != nil {
 		return 0
 	}
 	for i := 0; i < 5; i++ {
-		r, err := w.do(task{Scn: si, PB: pb, Prefix: v.Prefix, Single: true, Epoch: epoch + i})
+		r, err := w.do(task{Scn: si, PB: pb, Prefix: v.Prefix, Single: true, Trace: true, Epoch: epoch + i})
 		if err != nil {
 			return n
 		}
 		if len(r.Viol) > 0 && sameMsgs(r.Viol[0].Messages, v.Messages) {
 			n++
+			v.Trace = r.Viol[0].Trace
 		}
 	}
 	return n
